@@ -225,7 +225,8 @@ type Call struct {
 	Args    []Arg
 	Outcome string // ok | err | nil | panic
 	Outs    []*Inst
-	Nested  []Arg // results of the nested resolutions (Kind "err:<class>" on failure)
+	Nested  []Arg  // results of the nested resolutions (Kind "err:<class>" on failure)
+	Via     string // "provider" when this call happened inside a nested resolution issued through an injected Provider
 }
 
 type Event struct {
@@ -253,6 +254,7 @@ type World struct {
 	PanicVals []any
 	given     map[int]any
 	fns       map[int]any
+	via       string
 }
 
 func NewWorld(spec *Spec) *World {
@@ -487,7 +489,7 @@ func (w *World) Body(r *Reg, ft reflect.Type) func(args []reflect.Value) []refle
 		vsched.Yield("ctor")
 		w.mu.Lock()
 		w.serial[r.ID]++
-		call := &Call{Reg: r.ID, Serial: w.serial[r.ID], Thread: vsched.ThreadID(), Start: w.tick()}
+		call := &Call{Reg: r.ID, Serial: w.serial[r.ID], Thread: vsched.ThreadID(), Start: w.tick(), Via: w.via}
 		w.Calls = append(w.Calls, call)
 		w.Events = append(w.Events, Event{Stamp: call.Start, Kind: "ctor-start", Call: call, Thread: call.Thread})
 		if r.In {
@@ -505,13 +507,27 @@ func (w *World) Body(r *Reg, ft reflect.Type) func(args []reflect.Value) []refle
 		}
 		if len(r.Nested) > 0 && call.Serial == 1 {
 			// resolve from the injected scope while this constructor is running
-			var sc godi.Scope
+			var sc godi.Provider
 			for _, a := range call.Args {
 				if a.Kind == "scope" {
 					sc, _ = a.Ref.(godi.Scope)
 				}
 			}
+			viaProvider := false
+			if sc == nil {
+				// no Scope injected: resolve through an injected Provider (the root scope)
+				for _, a := range call.Args {
+					if a.Kind == "provider" {
+						sc, _ = a.Ref.(godi.Provider)
+						viaProvider = true
+					}
+				}
+			}
 			if sc != nil {
+				prevVia := w.via
+				if viaProvider {
+					w.via = "provider"
+				}
 				w.mu.Unlock()
 				for _, nd := range r.Nested {
 					var v any
@@ -528,6 +544,7 @@ func (w *World) Body(r *Reg, ft reflect.Type) func(args []reflect.Value) []refle
 					}
 				}
 				w.mu.Lock()
+				w.via = prevVia
 			}
 		}
 		fault := w.Faults[fmt.Sprintf("%d:%d", r.ID, call.Serial)]
